@@ -30,8 +30,8 @@ func (k Keeper) RegisterCoin(ctx sdk.Context, coinMetadata banktypes.Metadata) (
 	}
 
 	// check if the denomination already registered
-	if k.IsDenomRegistered(ctx, coinMetadata.Name) {
-		return nil, sdkerrors.Wrapf(types.ErrTokenPairAlreadyExists, "coin denomination already registered: %s", coinMetadata.Name)
+	if k.IsDenomRegistered(ctx, coinMetadata.Base) {
+		return nil, sdkerrors.Wrapf(types.ErrTokenPairAlreadyExists, "coin denomination already registered: %s", coinMetadata.Base)
 	}
 
 	// check if the coin exists by ensuring the supply is set
@@ -77,8 +77,8 @@ func (k Keeper) AddCoin(ctx sdk.Context, coinMetadata banktypes.Metadata, contra
 	}
 
 	// check if the denomination already registered
-	if k.IsDenomRegistered(ctx, coinMetadata.Name) {
-		return nil, sdkerrors.Wrapf(types.ErrTokenPairAlreadyExists, "coin denomination already registered: %s", coinMetadata.Name)
+	if k.IsDenomRegistered(ctx, coinMetadata.Base) {
+		return nil, sdkerrors.Wrapf(types.ErrTokenPairAlreadyExists, "coin denomination already registered: %s", coinMetadata.Base)
 	}
 
 	// check if the coin exists by ensuring the supply is set
